@@ -4,9 +4,9 @@ import json, os
 
 def st(k, n, **kw):
     d = dict(k=k, n=n, ref0=dict(p="", g=""), cfg="", mand="", dflt="", desc="", iff="", keys=[], c=[], gs=[], ref=[], aug=[],
-             ty=dict(p="", n="", rng="", en=[]), units="", tds=[], et=dict(base="", rngs=[], en=[]))
+             ty=dict(p="", n="", rng="", en=[], base=dict(p="", n="")), units="", tds=[], et=dict(base="", rngs=[], en=[], ids=[]))
     if k in ("leaf", "leaflist") and "ty" not in kw:
-        d["ty"] = dict(p="", n="string", rng="", en=[])
+        d["ty"] = dict(p="", n="string", rng="", en=[], base=dict(p="", n=""))
     d.update(kw)
     return d
 
@@ -17,10 +17,11 @@ def choice(n, *c, **kw): return st("choice", n, c=list(c), **kw)
 def case(n, *c, **kw): return st("case", n, c=list(c), **kw)
 def uses(g, p="", ref=(), aug=(), **kw): return st("uses", g, ref0=dict(p=p, g=g), ref=list(ref), aug=list(aug), **kw)
 def grouping(n, *c, gs=(), tds=()): return dict(n=n, c=list(c), gs=list(gs), tds=list(tds))
-def ty(n, p="", rng="", en=()): return dict(p=p, n=n, rng=rng, en=[dict(l=l, v=v) for l, v in en])
+def ty(n, p="", rng="", en=(), base=("", "")): return dict(p=p, n=n, rng=rng, en=[dict(l=l, v=v) for l, v in en], base=dict(p=base[0], n=base[1]))
+def identity(n, *bases): return dict(n=n, bases=[dict(p=p, n=b) for p, b in bases])
 def typedef(n, t, dflt="", units=""): return dict(n=n, ty=t, dflt=dflt, units=units)
-def module(name, prefix, body, gs=(), tds=(), augs=(), includes=(), imports=(), sub=False, belongs=""):
-    return dict(name=name, prefix=prefix, sub=sub, belongs=belongs, gs=list(gs), tds=list(tds), body=list(body), augs=list(augs),
+def module(name, prefix, body, gs=(), tds=(), augs=(), includes=(), imports=(), sub=False, belongs="", ids=()):
+    return dict(name=name, prefix=prefix, sub=sub, belongs=belongs, gs=list(gs), tds=list(tds), ids=list(ids), body=list(body), augs=list(augs),
                 includes=list(includes), imports=list(imports))
 
 seed1 = {"m": module("m", "m",
@@ -97,7 +98,24 @@ tseed2 = {
   "lib": module("lib", "lb", [], tds=[typedef("lt", ty("uint16", rng="1..1000"), dflt="80", units="ports")],
                 gs=[grouping("lg", leaf("la", ty=ty("lt")), leaf("lb1", ty=ty("string")))]),
 }
-json.dump([tseed1, tseed2], open(os.path.join(os.path.dirname(os.path.abspath(__file__)), "..", "spec", "yangtypeseeds.json"), "w"), indent=0)
+# identities derived in modules that are reached only through a module without identities of its own
+tseed3 = {
+  "m": module("m", "m", imports=[dict(m="baseids", p="b"), dict(m="bundle", p="bu")],
+    ids=[identity("mine", ("b", "transport"))],
+    tds=[typedef("tr", ty("identityref", base=("b", "transport")), dflt="local")],
+    body=[
+        leaf("proto", ty=ty("identityref", base=("b", "transport"))),
+        leaf("p2", ty=ty("tr")),
+        leaf("sec", ty=ty("identityref", base=("b", "secure"))),
+        cont("holder", leaf("inner", ty=ty("identityref", base=("", "mine")))),
+    ]),
+  "baseids": module("baseids", "b", [], ids=[identity("transport"), identity("local", ("", "transport")), identity("secure")]),
+  "bundle": module("bundle", "bu", [], imports=[dict(m="exttcp", p="t"), dict(m="extudp", p="u")]),
+  "exttcp": module("exttcp", "t", [], imports=[dict(m="baseids", p="b")],
+                   ids=[identity("tcp", ("b", "transport")), identity("tls", ("", "tcp"), ("b", "secure"))]),
+  "extudp": module("extudp", "u", [], imports=[dict(m="baseids", p="b")], ids=[identity("udp", ("b", "transport"))]),
+}
+json.dump([tseed1, tseed2, tseed3], open(os.path.join(os.path.dirname(os.path.abspath(__file__)), "..", "spec", "yangtypeseeds.json"), "w"), indent=0)
 
 out = os.path.join(os.path.dirname(os.path.abspath(__file__)), "..", "spec", "yangseeds.json")
 json.dump([seed1, seed2, seed3], open(out, "w"), indent=0)
